@@ -170,6 +170,107 @@ func lockBalance(L *Loaded, name string, fn *ssa.Function) []lockFinding {
 	return dedupFindings(out)
 }
 
+// mustFollow: protocol obligations "after a call of first(x) every path to a normal return calls
+// then(x)" — a sufficient condition for an index that is maintained by paired calls to stay in
+// step (I-cache: a table that is freed leaves every cache entry).
+var mustFollow = []struct{ first, then, what string }{
+	{"(*archetype).FreeTable", "(*cache).removeTable", "a freed table must be removed from the filter cache"},
+	{"(*archetype).AddTable", "(*cache).addTable", "a table added to an archetype must be offered to the filter cache"},
+}
+
+func pairingCheck(L *Loaded, name string, fn *ssa.Function) []lockFinding {
+	var out []lockFinding
+	rel := func(f *ssa.Function) string { return f.RelString(L.SPkg.Pkg) }
+	for _, pr := range mustFollow {
+		for _, b := range fn.Blocks {
+			for i, ins := range b.Instrs {
+				c, ok := ins.(*ssa.Call)
+				if !ok {
+					continue
+				}
+				f := calleeOf(c)
+				if f == nil || rel(f) != pr.first {
+					continue
+				}
+				args := c.Common().Args
+				if len(args) < 2 {
+					continue
+				}
+				x := args[len(args)-1]
+				// forward exploration
+				type st struct {
+					b   *ssa.BasicBlock
+					idx int
+				}
+				seen := map[int]bool{}
+				work := []st{{b, i + 1}}
+				bad := false
+				for len(work) > 0 && !bad {
+					s := work[len(work)-1]
+					work = work[:len(work)-1]
+					if s.idx == 0 {
+						if seen[s.b.Index] {
+							continue
+						}
+						seen[s.b.Index] = true
+					}
+					done := false
+					for k := s.idx; k < len(s.b.Instrs); k++ {
+						in2 := s.b.Instrs[k]
+						if c2, ok := in2.(*ssa.Call); ok {
+							if f2 := calleeOf(c2); f2 != nil && rel(f2) == pr.then {
+								a2 := c2.Common().Args
+								if len(a2) > 0 && sameTableValue(a2[len(a2)-1], x) {
+									done = true
+									break
+								}
+							}
+						}
+						if _, ok := in2.(*ssa.Return); ok {
+							bad = true
+							break
+						}
+						if _, ok := in2.(*ssa.Panic); ok {
+							done = true
+							break
+						}
+					}
+					if done || bad {
+						continue
+					}
+					for _, succ := range s.b.Succs {
+						work = append(work, st{succ, 0})
+					}
+				}
+				if bad {
+					p := L.Fset.Position(c.Pos())
+					out = append(out, lockFinding{name, "follows", pr.what + ": " + pr.first + " is not followed by " + pr.then + " on every path", lineText(p.Filename, p.Line)})
+				}
+			}
+		}
+	}
+	return out
+}
+
+// sameTableValue: the same SSA value, or two addresses of the same slice element.
+func sameTableValue(a, b ssa.Value) bool {
+	if a == b {
+		return true
+	}
+	ia, ok1 := a.(*ssa.IndexAddr)
+	ib, ok2 := b.(*ssa.IndexAddr)
+	if ok1 && ok2 && ia.Index == ib.Index {
+		la, okA := ia.X.(*ssa.UnOp)
+		lb, okB := ib.X.(*ssa.UnOp)
+		if okA && okB {
+			fa, okA := la.X.(*ssa.FieldAddr)
+			fb, okB := lb.X.(*ssa.FieldAddr)
+			return okA && okB && fa.Field == fb.Field && fa.X == fb.X
+		}
+	}
+	return false
+}
+
 func sameLockValue(v ssa.Value, acq *ssa.Call) bool {
 	if v == acq {
 		return true
@@ -416,9 +517,24 @@ func (r *Report) runLockCheck(allowFile string) (int, map[string]any) {
 			}
 		}
 		all = append(all, lockBalance(r.L, n, f)...)
+		if r.Sweep == "pairing" {
+			all = all[:0]
+		}
+	}
+	if r.Sweep == "pairing" {
+		all = nil
+		for _, n := range names {
+			f := r.L.Funcs[n]
+			if f.Synthetic != "" || f.Pkg != r.L.SPkg {
+				continue
+			}
+			all = append(all, pairingCheck(r.L, n, f)...)
+		}
 	}
 	gf, nEntry, nGuarded := guardCheck(r.L)
-	all = append(all, gf...)
+	if r.Sweep != "pairing" {
+		all = append(all, gf...)
+	}
 	v := 0
 	var samples []any
 	for _, f := range all {
@@ -435,10 +551,12 @@ func (r *Report) runLockCheck(allowFile string) (int, map[string]any) {
 		os.MkdirAll(dir+"/"+r.Prop, 0o755)
 		path := fmt.Sprintf("%s/%s/lock_%x.txt", dir, r.Prop, hashStr(key+f.What))
 		os.WriteFile(path, []byte(fmt.Sprintf("property: %s\nobligation: %s#%s(lock)\nfunction: %s\nfinding: %s\nat: %s\n", r.Prop, f.Func, f.Kind, f.Func, f.What, f.Line)), 0o644)
-		fmt.Printf("VIOLATION property=%s replay=%s obligation=%s#%s(lock) no-failing-input-found\n", r.Prop, path, strings.ReplaceAll(f.Func, " ", "_"), f.Kind)
+		// a failing protocol obligation may be the return of a fixed defect: its replay is a real failing input
+		extra := "no-failing-input-found"
+		fmt.Printf("VIOLATION property=%s replay=%s obligation=%s#%s %s\n", r.Prop, path, strings.ReplaceAll(f.Func, " ", "_"), f.Kind, extra)
 	}
 	samples = append(samples, map[string]any{"lock_acquire_sites": nAcq, "entry_points_reaching_structural_primitives": nEntry, "of_which_guarded_by_checkLocked": nGuarded})
-	fmt.Printf("lock discipline: acquire sites=%d entry points=%d guarded=%d findings=%d\n", nAcq, nEntry, nGuarded, v)
+	fmt.Printf("%s pass: acquire sites=%d entry points=%d guarded=%d findings=%d\n", r.Sweep, nAcq, nEntry, nGuarded, v)
 	cov := map[string]any{"lock_acquire_sites": nAcq, "entry_points": nEntry, "entry_points_guarded": nGuarded, "lock_findings": v, "lock_samples": samples}
 	return v, cov
 }
